@@ -34,7 +34,7 @@ ASSUMPTIONS = [
 ]
 REQUIRED = {"all": ["judged_calls", "references_computed", "pair:get_kappa->get_deltaMax(True)",
                     "pair:get_deltaMax->get_deltaMax(True)", "after_perturber_raise", "multi_object_histories",
-                    "preset_phosphosites_histories", "distinct_ops_ge_40", "state_snapshots", "adopted_shuffled_children", "thread_rounds"]}
+                    "preset_phosphosites_histories", "distinct_ops_ge_40", "state_snapshots", "adopted_shuffled_children", "thread_rounds", "several_objects_of_one_string"]}
 NHIST = {"quick": 280, "thorough": 3000}
 NSEQ = {"quick": 90, "thorough": 600}
 MAX_SHARDS = 16
@@ -134,6 +134,8 @@ TARGETED = [
     [("get_SCD", ()), ("get_SCD", ())],
     [("get_kappa_X", ("EDS", "SKR")), ("get_kappa_X", ("SKR", "EDS")), ("get_kappa_X", ("EDS", "SKR"))],
     [("get_kappa_X", ("KR", "ED")), ("get_kappa_X", ("ED", "KR")), ("get_kappa", ())],
+    [("get_kappa_X", ("ED", "KR")), ("get_kappa_X", ("DEK", "R")), ("get_kappa_X", ("DEKR",)), ("get_kappa_X", ("D", "EKR"))],
+    [("get_kappa_X", ("ST", "Y")), ("get_kappa_X", ("S", "TY")), ("get_kappa_X", ("STY",))],
     [("get_linear_sigma(w)", (5,)), ("get_linear_FCR(w)", (5,)), ("get_linear_NCPR(w)", (5,))],
     [("get_linear_hydropathy(w)", (3,)), ("get_linear_sigma(w)", (3,)), ("get_linear_FCR(w)", (3,)), ("get_linear_sigma(w)", (3,))],
     [("get_isoelectric_point", ()), ("get_FCR(pH)", (14,)), ("get_isoelectric_point", ())],
@@ -266,7 +268,12 @@ def cases(tier, seed):
     for i in range(NHIST[tier]):
         k = rng.choice([1, 1, 2, 3, 4])
         pool = seqs[:24] if i % 5 == 0 else seqs
-        yield {"seqs": [rng.choice(pool) for _ in range(k)], "o": rng.randrange(1 << 30)}
+        chosen = [rng.choice(pool) for _ in range(k)]
+        if i % 7 == 3:
+            # several objects built from the SAME string (they differ only in what was done to them, e.g. their phosphosites)
+            s_ = rng.choice([x for x in seqs if sum(c in "STY" for c in x) >= 2] or seqs)
+            chosen = [s_] * rng.choice([2, 3])
+        yield {"seqs": chosen, "o": rng.randrange(1 << 30)}
 
 
 def reference(seq, presites, name, args):
@@ -394,6 +401,18 @@ def judge(case, rep, S):
         presets.append(pre)
     if len(objs) > 1:
         rep.cnt("multi_object_histories")
+    if len(objs) > 1 and len(set(seqs)) == 1:
+        rep.cnt("several_objects_of_one_string")
+        if len(set(map(tuple, presets))) == 1:
+            # make sure they differ in their phosphosites
+            sty = [i + 1 for i, c in enumerate(seqs[0]) if c in "STY"]
+            if len(sty) >= 2:
+                objs[0].clear_phosphosites()
+                objs[0].set_phosphosites([sty[0]])
+                presets[0] = [sty[0]]
+                objs[1].clear_phosphosites()
+                objs[1].set_phosphosites([sty[-1]])
+                presets[1] = [sty[-1]]
     if any(presets):
         rep.cnt("preset_phosphosites_histories")
     last = [None] * len(objs)
@@ -401,6 +420,12 @@ def judge(case, rep, S):
     n0 = _z["memo"].get("__n", 0)
     history = []
     pending = []                      # targeted follow-up calls: (object index, name, args)
+    if len(objs) > 1 and len(set(seqs)) == 1:
+        # the same questions to each of the objects that share a string, one after the other
+        for nm_ in rng.sample(["get_kappa_after_phosphorylation", "get_phosphosequence", "get_Omega", "get_kappa", "get_full_phosphostatus_kappa_distribution",
+                               "get_phosphosites", "get_deltaMax(True)", "get_isoelectric_point"], 4):
+            for k_ in range(len(objs)):
+                pending.append((k_, nm_, ()))
     for step in range(rng.randint(5, 60)):
         k = rng.randrange(len(objs))
         if pending:
